@@ -490,6 +490,14 @@ def sh_branch_last(S):
     return ["b main", "ok:", "int 1", "return", REJECT, "main:"] + S[0] + ["b ok"]
 
 
+def sh_cond_branch_last(S):
+    """the last instruction of the program is a conditional branch back to the approving block (not taken: the run falls off
+    the end with an empty stack and fails)"""
+    last = S[0]
+    tail = last[:-1] + ["bnz ok"] if last and last[-1] == "return" else last + ["load 8", "bnz ok"]
+    return ["b main", "ok:", "int 1", "return", REJECT, "main:"] + S[1] + tail
+
+
 def sh_dead_branch(S):
     return (S[0] + ["b live", "int 1", "bnz live", "err", "live:"] + S[1] + _end(S[1]) + [REJECT])
 
@@ -556,6 +564,9 @@ SHAPES: List[Shape] = [
     Shape("empty_sub", 2, 1, sh_empty_sub),
     Shape("loop_call_exit", 3, 2, sh_loop_call_exit),
     Shape("loop_call", 3, 2, sh_loop_call),
+    Shape("cond_branch_last", 2, 0, sh_cond_branch_last),
+    Shape("intc_late_straight", 3, None, sh_straight, prefix_only=True, intc="late"),
+    Shape("intc_late_diamond", 3, 2, sh_diamond, intc="late"),
     Shape("loop_two_exits", 3, 2, sh_loop_two_exits),
     Shape("switch_rep", 3, 2, _multiway_rep("switch")),
     Shape("match_rep", 3, 2, _multiway_rep("match")),
@@ -643,6 +654,9 @@ def build(shape: Shape, slots: Tuple[int, ...], stmts: Sequence[Stmt],
             flat.append(ln)
     if shape.intc:
         flat = _to_intc(flat)
+        if shape.intc == "late":
+            # the constant block is not in the entry block: a static reader cannot resolve intc_k (the AVM can)
+            flat = ["b ic_start", "ic_start:"] + flat
     need = min_version(flat)
     ver = max(need, version or shape.version or need)
     return "\n".join([f"#pragma version {ver}"] + flat) + "\n", ver
